@@ -12,6 +12,13 @@
 //! * key steps: commit string non-empty <=> result Commit;
 //! * API calls: what they do to the commit buffer (select: overflow or untouched; the others untouched;
 //!   ack / clear: emptied).
+//!
+//! Character counts are "one character per symbol" EXCEPT for a syllable the dictionary has no word for: every
+//! engine shows it as its Bopomofo spelling (1..4 characters for one symbol: F30 for the simple engine, the
+//! fallback edge of 43e8036 for the others).  The intervals of the conversion the step committed tell which
+//! symbols are shown that way (`spelling_extra`); the ledger and the conservation check count such an interval
+//! as ONE symbol, the check "display after auto-commit has one character per symbol" is evaluated only when
+//! every remaining syllable has a word (`c02_display_checks_skipped_wordless` otherwise).
 use crate::step::*;
 use chewing::editor::keyboard::KeyCode;
 use std::cell::RefCell;
@@ -57,6 +64,9 @@ struct Stats {
     conv_calls_multi_alt: u64,
     conv_calls_alt_text_differs: u64,
     samples: u64,
+    spelled_commits: u64,
+    spelled_extra_chars: u64,
+    display_checks_skipped_wordless: u64,
 }
 
 /// running ledger of the current session: characters emitted so far, characters accepted so far
@@ -131,12 +141,35 @@ fn nchars(s: &str) -> usize {
     s.chars().count()
 }
 
-fn whole_commit(out: &mut Out, st: &Step, by_key: bool) {
+/// characters a committed path shows BEYOND one per symbol: one-symbol intervals whose text is the Bopomofo
+/// spelling of their syllable (a syllable without a word)
+fn spelling_extra(path: &[chewing::conversion::Interval], syms: &[String]) -> usize {
+    let extra: usize = path
+        .iter()
+        .filter(|iv| iv.end == iv.start + 1)
+        .filter_map(|iv| {
+            let code: u16 = syms.get(iv.start)?.strip_prefix('s')?.parse().ok()?;
+            let spelled = chewing::zhuyin::Syllable::try_from(code).ok()?.to_string();
+            (spelled == *iv.str).then(|| nchars(&spelled).saturating_sub(1))
+        })
+        .sum();
+    if extra > 0 {
+        STATS.with(|s| {
+            let mut s = s.borrow_mut();
+            s.spelled_commits += 1;
+            s.spelled_extra_chars += extra as u64;
+        });
+    }
+    extra
+}
+
+/// returns the characters of the commit string beyond one per symbol (`spelling_extra` of the committed path)
+fn whole_commit(out: &mut Out, st: &Step, by_key: bool) -> usize {
     let post = st.post;
     let mb = misc(post);
     let Some(shown) = st.display_pre else {
         fail(out, st, "whole-buffer commit succeeded although display() of the state before panicked");
-        return;
+        return 0;
     };
     if st.commit_post != shown {
         fail(out, st, &format!("commit string {} differs from the pre-edit displayed before {}", hx(st.commit_post), hx(shown)));
@@ -155,6 +188,10 @@ fn whole_commit(out: &mut Out, st: &Step, by_key: bool) {
     }
     let nth: usize = misc(st.pre)[2].parse().unwrap();
     let (_, breaks, nsel) = parse_comp(comp_part(st.pre));
+    let extra = match st.conv.first() {
+        Some((_, comp, paths)) if !paths.is_empty() => spelling_extra(&paths[nth % paths.len()], &parse_comp(comp).0),
+        _ => 0,
+    };
     STATS.with(|s| {
         let mut s = s.borrow_mut();
         if by_key { s.whole_commits_key += 1 } else { s.whole_commits_api += 1 }
@@ -177,6 +214,7 @@ fn whole_commit(out: &mut Out, st: &Step, by_key: bool) {
             }
         }
     });
+    extra
 }
 
 /// the composition part of the composition-editor section (after cursor and the cursor stack)
@@ -192,24 +230,25 @@ fn comp_part(snap: &str) -> &str {
     &sec[off.min(sec.len())..]
 }
 
-fn auto_commit(out: &mut Out, st: &Step, by_key: bool) -> Option<usize> {
+/// returns (symbols of the full buffer the engine was asked about, characters of the commit string beyond one per symbol)
+fn auto_commit(out: &mut Out, st: &Step, by_key: bool) -> (Option<usize>, usize) {
     let (pre, post) = (st.pre, st.post);
     let (ma, mb) = (misc(pre), misc(post));
     let thr = option(pre, 6);
     let Some((_, comp, paths)) = st.conv.last() else {
         fail(out, st, "Commit reported by the overflow path without asking for a conversion");
-        return None;
+        return (None, 0);
     };
     let (full_syms, breaks, nsel) = parse_comp(comp);
     let n_full = full_syms.len();
     if n_full <= thr {
         fail(out, st, &format!("auto-commit although the buffer ({} symbols) fits the threshold {}", n_full, thr));
-        return Some(n_full);
+        return (Some(n_full), 0);
     }
     let nth: usize = mb[2].parse().unwrap();
     if paths.is_empty() {
         fail(out, st, "auto-commit from an empty list of alternatives");
-        return Some(n_full);
+        return (Some(n_full), 0);
     }
     let path = if nth > 0 { &paths[nth % paths.len()] } else { &paths[0] };
     let full_text: String = path.iter().map(|i| i.str.to_string()).collect();
@@ -234,8 +273,9 @@ fn auto_commit(out: &mut Out, st: &Step, by_key: bool) -> Option<usize> {
     if remove > n_full || rest.len() != n_full - remove || rest.iter().zip(full_syms[remove.min(n_full)..].iter()).any(|(a, b)| *a != b.as_str()) {
         fail(out, st, &format!("remaining symbols are not the full buffer minus the {} symbols under the committed text", remove));
     }
-    if nchars(got) + rest.len() != n_full {
-        fail(out, st, &format!("characters not conserved: {} committed + {} remaining != {} before", nchars(got), rest.len(), n_full));
+    let extra = spelling_extra(&path[..k], &full_syms);
+    if nchars(got) != remove + extra || remove + rest.len() != n_full {
+        fail(out, st, &format!("characters not conserved: {} committed ({} of them spelling of word-less syllables beyond one per symbol) + {} remaining != {} before", nchars(got), extra, rest.len(), n_full));
     }
     if rest.len() > thr {
         fail(out, st, &format!("{} symbols remain after auto-commit, threshold {}", rest.len(), thr));
@@ -244,7 +284,13 @@ fn auto_commit(out: &mut Out, st: &Step, by_key: bool) -> Option<usize> {
         fail(out, st, "len() disagrees with the snapshot");
     }
     if let Some(d) = st.display_post {
-        if nchars(d) != rest.len() {
+        if st.no_word_post.is_some() {
+            // a remaining word-less syllable is shown as its spelling: at least one character per symbol
+            STATS.with(|s| s.borrow_mut().display_checks_skipped_wordless += 1);
+            if nchars(d) < rest.len() {
+                fail(out, st, &format!("display after auto-commit has only {} characters for {} symbols", nchars(d), rest.len()));
+            }
+        } else if nchars(d) != rest.len() {
             fail(out, st, &format!("display after auto-commit has {} characters for {} symbols", nchars(d), rest.len()));
         }
     }
@@ -286,7 +332,7 @@ fn auto_commit(out: &mut Out, st: &Step, by_key: bool) -> Option<usize> {
         }
         if by_key { s.chars_overflow_key += nchars(got) as u64 } else { s.chars_overflow_select += nchars(got) as u64 }
     });
-    Some(n_full)
+    (Some(n_full), extra)
 }
 
 fn path_text(p: &[chewing::conversion::Interval]) -> String {
@@ -329,9 +375,9 @@ pub fn check(out: &mut Out, st: &Step) {
             if ret != "C" {
                 fail(out, st, &format!("Enter on a non-empty pre-edit answered {}", ret));
             }
-            whole_commit(out, st, true);
+            let extra = whole_commit(out, st, true);
             STATS.with(|s| s.borrow_mut().chars_whole_key += nchars(st.commit_post) as u64);
-            ledger(out, st, nchars(st.commit_post), 0);
+            ledger(out, st, nchars(st.commit_post).saturating_sub(extra), 0);
         } else if ret == "C" {
             if st.conv.is_empty() {
                 // no conversion was asked for: the single-character paths (empty pre-edit)
@@ -362,8 +408,8 @@ pub fn check(out: &mut Out, st: &Step) {
                 });
                 ledger(out, st, nchars(st.commit_post), nchars(st.commit_post) as i64 + delta);
             } else {
-                let n_full = auto_commit(out, st, true);
-                ledger(out, st, nchars(st.commit_post), n_full.map_or(delta, |n| n as i64 - st.len_pre as i64));
+                let (n_full, extra) = auto_commit(out, st, true);
+                ledger(out, st, nchars(st.commit_post).saturating_sub(extra), n_full.map_or(delta, |n| n as i64 - st.len_pre as i64));
             }
         } else {
             STATS.with(|s| s.borrow_mut().non_commit_keys += 1);
@@ -381,9 +427,9 @@ pub fn check(out: &mut Out, st: &Step) {
                 fail(out, st, &format!("commit() answered {} in state {} with {} symbols", ret, &a[0][..1], symbols(pre).len()));
             }
             if ret == "ok" {
-                whole_commit(out, st, false);
+                let extra = whole_commit(out, st, false);
                 STATS.with(|s| s.borrow_mut().chars_whole_api += nchars(st.commit_post) as u64);
-                (emitted, accepted) = (nchars(st.commit_post), 0);
+                (emitted, accepted) = (nchars(st.commit_post).saturating_sub(extra), 0);
             } else {
                 STATS.with(|s| s.borrow_mut().api_commit_rejected += 1);
                 if pre != post {
@@ -393,8 +439,8 @@ pub fn check(out: &mut Out, st: &Step) {
         }
         "select" => {
             if ret == "ok" && mb[0] == "C" && a[0].as_bytes()[0] == b'S' {
-                let n_full = auto_commit(out, st, false);
-                (emitted, accepted) = (nchars(st.commit_post), n_full.map_or(delta, |n| n as i64 - st.len_pre as i64));
+                let (n_full, extra) = auto_commit(out, st, false);
+                (emitted, accepted) = (nchars(st.commit_post).saturating_sub(extra), n_full.map_or(delta, |n| n as i64 - st.len_pre as i64));
             } else {
                 if ma[3] != mb[3] {
                     fail(out, st, "select() without overflow changed the commit buffer");
@@ -469,5 +515,8 @@ pub fn stats(out: &mut Out) {
         out.stat("c02_single_char_commits", s.single_char_commits);
         out.stat("c02_non_commit_keys", s.non_commit_keys);
         out.stat("c02_api_calls_buffer_kept", s.api_calls_buffer_kept);
+        out.stat("c02_commits_with_wordless_spelling", s.spelled_commits);
+        out.stat("c02_wordless_spelling_extra_chars", s.spelled_extra_chars);
+        out.stat("c02_display_checks_skipped_wordless", s.display_checks_skipped_wordless);
     });
 }
